@@ -103,7 +103,7 @@ def judge_pair(name, pat, impl, m, s):
                 replay=dict(op="pathmatch", name=_txt(name), pattern=_txt(pat), name_hex=name.hex(),
                             pattern_hex=pat.hex(), implementation=impl[:1] if impl[:1] in "TFP" else impl,
                             model=m, specification=s),
-                size=len(name) + len(pat)), None
+                size=len(name) + len(pat) + (100 if name in (b".", b"..", b"") else 0)), None
 
 
 def judge_filelist(enc, pat, mode, il, mf):
@@ -262,14 +262,21 @@ def run(ctx, spec):
         structural_agreement=(cnt["drift_outside_domain"] == 0 and cnt["filelist_order_differs"] == 0))
     for msg in machinery[:3]:
         ctx.violation("machinery", msg, dict(detail=machinery[:20]), found_input=False)
+    # smallest first; the first five are printed: three (name, pattern) pairs, two (tree, pattern) cases
     viol.sort(key=lambda v: (v["size"], v["key"]))
-    seen = set()
+    uniq, seen = [], set()
     for v in viol:
-        if v["key"] in seen:
-            continue
-        seen.add(v["key"])
-        if len(seen) > 12:
-            break
+        if v["key"] not in seen:
+            seen.add(v["key"])
+            uniq.append(v)
+    pairs = [v for v in uniq if v["replay"]["op"] == "pathmatch"]
+    lists = [v for v in uniq if v["replay"]["op"] == "filelist"]
+    ordered = pairs[:3] + lists[:2] + pairs[3:8] + lists[2:4]
+    if not lists:
+        ordered = pairs[:12]
+    if not pairs:
+        ordered = lists[:12]
+    for v in ordered:
         ctx.violation("failing-input", v["what"], v["replay"], key=v["key"])
 
 
